@@ -219,6 +219,20 @@ def gen_workspace(rnd: random.Random, root="/vw", max_depth=3, chain_only=False)
                 src += test_src(rnd, "test_m", ["self"] + rnd.sample(names, 1), indent="    ") + "\n"
         files[d + "/test_mod%d.py" % k] = src
 
+    # a diamond in the star-import graph, reached from two sibling conftest.py files: whatever
+    # the first query leaves in the import memo, the second conftest must see the same names
+    if not chain_only and rnd.random() < 0.2:
+        n = rnd.choice(names)
+        files[root + "/dia_d.py"] = "import pytest\n\n" + fixture_src(rnd, n, doc="behind the diamond") + "\n"
+        files[root + "/dia_c.py"] = "from dia_d import *\n"
+        files[root + "/dia_a.py"] = "from dia_c import *\n"
+        files[root + "/dia_b.py"] = rnd.choice(["from dia_c import *\n", "from dia_c import *\nfrom dia_a import *\n"])
+        files[root + "/aside/conftest.py"] = "from dia_a import *\nfrom dia_b import *\n"
+        files[root + "/zside/conftest.py"] = "from dia_b import *\n"
+        files[root + "/aside/test_aside.py"] = test_src(rnd, "test_as", [n])
+        files[root + "/zside/test_zside.py"] = test_src(rnd, "test_zs", [n])
+        tags.append("import:diamond")
+
     order = sorted(files)
     rnd.shuffle(order)
     return {"files": files, "plugins": plugins, "order": order, "tags": tags, "names": names, "root": root}
